@@ -21,7 +21,7 @@ REQUIRED = ["all_checked", "comp_checked", "bt_checked", "max_results_checked", 
             "strict_guard_checked", "hcount_discriminates", "selfcheck_bruteforce_vs_permutations",
             "big_count_threshold_checked", "molecule_plus_lone_atoms_hosts"]
 ASSUMPTIONS = [
-    "COMPONENT/BACKTRACK with max_results: only '<= k results, each a valid member of the unlimited set' is demanded",
+    "COMPONENT/BACKTRACK with max_results=k: exactly min(k, n) members of the strategy's own unlimited set (which members is not prescribed)",
     "threshold t: [] required when the unlimited result has more than t maps, the full set required when every internal count is <= t, either accepted in between",
     "strict_cc_count=True: [] when the host has more components than the pattern (documented guard)",
 ]
@@ -146,11 +146,13 @@ def check_pair(ctx, host, pattern, tag, key, light=False):
             ctx.count("max_results_checked")
             if [fz(m) for m in r] != [fz(m) for m in r_all[:k]]:
                 bad("max-results-all", f"ALL with max_results={k} is not the first {k} of its unlimited list", strategy="all", max_results=k)
-            for strat, pool in (("comp", exp_comp), ("bt", exp_comp | Ls)):
+            # a result limit only truncates: k (or all, if fewer) members of the set the strategy returns without a limit
+            for strat, pool in (("comp", exp_comp), ("bt", exp_comp if exp_comp else Ls)):
                 r = call(strategy=strat, max_results=k, strict_cc_count=False)
                 s = as_set(r, strat, {"strategy": strat, "max_results": k})
-                if len(r) > k or not s <= pool:
-                    bad("max-results-" + strat, f"{strat} with max_results={k} returned {len(r)} maps, {len(s - pool)} of them not in the unlimited set", strategy=strat, max_results=k)
+                if len(r) != min(k, len(pool)) or not s <= pool:
+                    bad("max-results-" + strat, f"{strat} with max_results={k} returned {len(r)} maps ({len(s - pool)} of them outside the set it returns without a limit, "
+                        f"which has {len(pool)}): a limit must only truncate", strategy=strat, max_results=k)
         # ---- thresholds ---- #
         for t in (0, 1, 3):
             r = call(strategy="all", threshold=t)
